@@ -201,7 +201,8 @@ def run (lines : Array String) : IO Unit := do
   for l in lines do
     match words l with
     | ["fs", lim, outs, order] =>
-      let key := lim ++ " " ++ outs
+      -- `step` consults the limit only through `semCap` (none for every limit ≤ 0)
+      let key := s!"{semCap (cfgFs (intOf lim) [])} {outs}"
       let allowed ← match fsCache[key]? with
         | some a => pure a
         | none =>
@@ -213,7 +214,7 @@ def run (lines : Array String) : IO Unit := do
       let eps := parseEps epss
       if eps.length > 5 then out.putStrLn "class=skip allowed=skip" else
       let c := cfgOf (intOf lim) eps
-      let key := lim ++ " " ++ commas ((List.range c.n).map fun j => outStr (c.out j))
+      let key := s!"{semCap c} " ++ commas ((List.range c.n).map fun j => outStr (c.out j))
       let ex ← match findCache[key]? with
         | some a => pure a
         | none =>
